@@ -16,10 +16,21 @@ impl VStream for VDynReader {
 /// layers::encrypt::EncryptionReaderConfig: opaque here (unit enc_cfg / enc_reader)
 pub struct EncryptionReaderConfig { _p: u8 }
 impl EncryptionReaderConfig {
+    /// failsafe_mode is DataEvenUnauthenticated
+    pub uninterp spec fn unauth(&self) -> bool;
+    /// ASSUMED: `#[derive(Default)]`, `#[default]` on FailSafeReaderDecryptionMode::OnlyAuthenticatedData (exercised by
+    /// probe_fresh_reader_config_repairs_only_authenticated_data)
     #[verifier::external_body]
-    pub fn load_persistent(&mut self, config: &EncryptionPersistentConfig) -> (r: Result<(), ConfigError>) { unimplemented!() }
+    pub fn default() -> (r: Self) ensures !r.unauth() { unimplemented!() }
+    /// CONTRACT PROVED IN UNIT enc_cfg (clause cfg.load.keeps_the_repair_mode)
+    #[verifier::external_body]
+    pub fn load_persistent(&mut self, config: &EncryptionPersistentConfig) -> (r: Result<(), ConfigError>)
+        ensures final(self).unauth() == old(self).unauth(),
+    { unimplemented!() }
 }
 impl VDynReader {
+    /// the decryption layer of this stack (if any) hands out data whose tag was not checked (fail-safe readers only)
+    pub uninterp spec fn decrypts_unauth(&self) -> bool;
     /// Box::new(RawLayerReader::new(src)) followed by reset_position(): the raw layer starts right after the header
     #[verifier::external_body]
     pub fn raw<R: VRead>(src: R) -> (r: VDynReader) requires src.wf() ensures r.wf(), r.stack@ == seq![layer_raw()] { unimplemented!() }
@@ -28,12 +39,15 @@ impl VDynReader {
     pub fn wrap_encrypt(inner: VDynReader, cfg: &EncryptionReaderConfig) -> (r: Result<VDynReader, Error>)
         requires inner.wf(),
         ensures r is Ok ==> r->Ok_0.wf() && r->Ok_0.stack@ == inner.stack@.push(layer_encrypt()),
+            // CONTRACT PROVED IN UNIT enc_reader (EncryptionLayerFailSafeReader::new: decryption_mode == config.failsafe_mode)
+            r is Ok ==> r->Ok_0.decrypts_unauth() == cfg.unauth(),
     { unimplemented!() }
     /// Box::new(CompressionLayerReader::new(inner)?) / CompressionLayerFailSafeReader::new
     #[verifier::external_body]
     pub fn wrap_compress(inner: VDynReader) -> (r: Result<VDynReader, Error>)
         requires inner.wf(),
         ensures r is Ok ==> r->Ok_0.wf() && r->Ok_0.stack@ == inner.stack@.push(layer_compress()),
+            r is Ok ==> r->Ok_0.decrypts_unauth() == inner.decrypts_unauth(),
     { unimplemented!() }
     /// LayerReader::initialize of the whole stack (each layer reads its footer): keeps the stack
     #[verifier::external_body]
